@@ -6,7 +6,7 @@ from concurrent.futures import ThreadPoolExecutor
 VERIF = os.path.dirname(os.path.dirname(os.path.abspath(__file__)))
 
 def sh(cmd, **kw):
-    return subprocess.run(cmd, stdout=subprocess.PIPE, stderr=subprocess.STDOUT, text=True, **kw)
+    return subprocess.run(cmd, stdout=subprocess.PIPE, stderr=subprocess.STDOUT, text=True, errors="replace", **kw)
 
 def scratch_repo(patch=None):
     d = tempfile.mkdtemp(prefix="cello-scratch-", dir=os.environ.get("TMPDIR", "/tmp"))
@@ -63,7 +63,7 @@ def determinism(args, seed, core):
         def go(first, count, aslr):
             cmd = [exe, "run", "scen=" + scen, "seed=%d" % seed, "first=%d" % first, "count=%d" % count, "timeout=20"] + core.envargs(env)
             if not aslr: cmd = ["setarch", "x86_64", "-R"] + cmd
-            r = subprocess.run(cmd, stdout=subprocess.PIPE, stderr=subprocess.DEVNULL, text=True)
+            r = subprocess.run(cmd, stdout=subprocess.PIPE, stderr=subprocess.DEVNULL, text=True, errors="replace")
             return [re.sub(r" st=\S+", "", l) for l in r.stdout.splitlines() if l.startswith("RUN ")]
         with ThreadPoolExecutor(max_workers=16) as ex:
             a = list(ex.map(lambda f: go(f, 50, True), range(0, n, 50)))
